@@ -11,18 +11,18 @@ import (
 // re-attach, while the scheduler interleaves background work, time and
 // faults.
 type session struct {
-	queue        []Step
-	started      bool
-	offlineUntil map[int]int
-	syncCalls    int // storage calls of the last complete sync RPC (for fault placement)
-	syncCallNames []string // their names, learnt from the last pushing sync of this run
-	c05          *c05Faulter
-	pendingAttach map[int]bool
-	lateAttach   map[int]int // client -> step at which it first attaches
-	faultsLeft   int
-	rejoining    map[int]bool
+	queue           []Step
+	started         bool
+	offlineUntil    map[int]int
+	syncCalls       int      // storage calls of the last complete sync RPC (for fault placement)
+	syncCallNames   []string // their names, learnt from the last pushing sync of this run
+	c05             *c05Faulter
+	pendingAttach   map[int]bool
+	lateAttach      map[int]int // client -> step at which it first attaches
+	faultsLeft      int
+	rejoining       map[int]bool
 	firstAttachDone bool
-	jumped       bool
+	jumped          bool
 }
 
 func (rc *RunCtx) sess() *session {
@@ -139,6 +139,9 @@ func SessionNext(rc *RunCtx) *Step {
 				continue
 			}
 			n := 1 + r.IntN(3)
+			if cfg.Extra["single_edit_updates"] > 0 {
+				n = 1
+			}
 			st := &Step{Op: "update", C: c}
 			root := sd.Doc.Root()
 			for k := 0; k < n; k++ {
